@@ -16,6 +16,7 @@ import (
 type Case struct {
 	Kind    string           `json:"kind"` // parse | stream | eval | expand | history | print
 	Src     string           `json:"src,omitempty"`
+	Src2    string           `json:"src2,omitempty"` // parse2: the source of the second, independent caller
 	Reader  gosim.ReaderPlan `json:"reader"`
 	Aliases [][2]string      `json:"aliases,omitempty"`
 
